@@ -1012,9 +1012,14 @@ def call_builtin(I, fv: BoundV, args: list, kwargs: dict, st, node=None) -> list
         else:
             try:
                 r = getattr(recv, name)(*args, **kwargs)
-            except (AttributeError, TypeError, ValueError) as e:
+            except AttributeError as e:
                 st.note(f"str.{name}: {e}")
                 return [(Unknown(name), st)]
+            except (TypeError, ValueError) as e:
+                # concrete receiver, concrete arguments: the library raises exactly this
+                from .absint import Raised
+
+                return [(Raised(type(e).__name__, node, f"str.{name}: {e}"), st)]
             if isinstance(r, list):
                 return [(st.alloc(HObj("list", items=r)), st)]
             return [(r, st)]
@@ -1059,6 +1064,8 @@ def call_builtin(I, fv: BoundV, args: list, kwargs: dict, st, node=None) -> list
         r = re_pattern_method(I, recv, name, args, kwargs, st, node)
         if r is not None:
             return r
+        st.note(f"compiled pattern .{name}() on abstract text")
+        return [(Unknown(f"re.{name}"), st)]
     if isinstance(recv, Opaque) and recv.cls == "re.Match":
         r = re_match_method(I, recv, name, args, kwargs, st)
         if r is not None:
